@@ -88,6 +88,10 @@ Proof.
   - assert (impl_DT s = Err x) as Hx by (unfold impl_DT; now rewrite E).
     rewrite (DT_only_valueerror _ _ Hx). reflexivity.
 Qed.
+Print Assumptions C13_params_st.
+Print Assumptions C13_params_maxlen.
+Print Assumptions C13_params_formats.
+Print Assumptions C13_params_offset_grid.
 Print Assumptions C13_check_date.
 
 (* ---- TM ---- *)
